@@ -198,7 +198,9 @@ def build_checker(d, spec_, allow_late=False):
         return impl.DRAFT_CHECKERS[d], None
     if k == "subset":
         names = [n for n in spec_.get("subset", []) if n in js.FormatChecker.checkers]
-        return js.FormatChecker(formats=names), None
+        how = len("".join(names)) % 4          # `formats` is documented as an iterable of names: any kind of iterable
+        arg = names if how == 0 else tuple(names) if how == 1 else iter(names) if how == 2 else (n for n in names)
+        return js.FormatChecker(formats=arg), None
     if k == "subset-all":
         return js.FormatChecker(formats=sorted(js.FormatChecker.checkers)), None
     sc = Scripted(spec_["script"], late=bool(spec_.get("late")) and allow_late)
@@ -391,6 +393,27 @@ class C12(Prop):
                 res.fail(("flat", "conforms-raises", impl.tname(e2)), repr(e2)[:200])
             if known and (not isinstance(x, str) or m != "ok"):
                 res.nontrivial = True
+        # the same format keyword reached through a reference: what the function does still comes through unchanged
+        if sc is not None and isinstance(s, dict) and "definitions" not in s and "$ref" not in s:
+            behind = {"definitions": {"f": copy.deepcopy(s)}, "properties": {"p": {"$ref": "#/definitions/f"}}}
+            for x in case["instances"][:3]:
+                m = self.model_for(fc, sc, name, x)
+                del sc.raised[:]
+                try:
+                    errs = list(cls(copy.deepcopy(behind), format_checker=fc).iter_errors({"p": x}))
+                    raised = None
+                except Exception as e:
+                    errs, raised = None, e
+                res.evals += 1
+                if m == "propagate":
+                    if raised is None or not sc.raised or raised is not sc.raised[-1]:
+                        res.fail(("behind-ref", "unlisted-exception-not-propagated-unchanged", impl.tname(raised) if raised else "none"),
+                                 "format=%r instance=%s: got %r" % (name, impl.cj(x)[:80], raised))
+                elif raised is not None:
+                    res.fail(("behind-ref", "raises", impl.tname(raised)), "format=%r instance=%s: %r" % (name, impl.cj(x)[:80], raised))
+                elif (m != "ok") != any(e.validator == "format" for e in errs):
+                    res.fail(("behind-ref", "format-error-presence"), "format=%r instance=%s model=%s errors=%r" % (
+                        name, impl.cj(x)[:80], m, [e.validator for e in errs]))
         # the module-level function with ONE schema object and a different checker each time: the checker passed to a
         # call is the one that counts for that call
         sobj = copy.deepcopy(s)
